@@ -232,8 +232,10 @@ def _try_branch_option(eng, st, args, ci):
 def _from_residual_result(eng, st, args, ci):
     v = args[0]
     pl = {}
-    if 1 in v.payloads:
+    if isinstance(v, Enum) and 1 in v.payloads:
         pl[1] = v.payloads[1]
+    else:
+        pl[1] = Tup([Opaque('error', next(eng.counter))])     # residual given as a constant (unit error types)
     return Enum('Result', 1, pl)
 
 
@@ -442,7 +444,7 @@ def _vecref_into_iter(eng, st, args, ci):
 @intrinsic(r'^<.* as (std::iter::)?IntoIterator>::into_iter$', 'IntoIterator for iterators (identity)')
 def _into_iter_id(eng, st, args, ci):
     a = args[0]
-    if isinstance(a, Tup) and a.name in ('SliceIter', 'Peekable', 'ValuesMut', 'Rev', 'Enumerate', 'Zip', 'Filter', 'Map', 'RangeIter', 'Range', 'CharsIter'):
+    if isinstance(a, Tup) and a.name in ('SliceIter', 'Peekable', 'ValuesMut', 'Rev', 'Enumerate', 'Zip', 'Filter', 'Map', 'RangeIter', 'Range', 'CharsIter', 'OwnedIter', 'FilterMap'):
         return a
     if isinstance(a, Ref):
         v = eng.read_ref(st, a)
@@ -1054,3 +1056,143 @@ def _filter_map_next(eng, st, args, ci):
     for s in live:
         results.append((s, 'ret', NONE))
     return results
+
+
+# ---------------------------------------------------------------- VecDeque / Vec::remove / str::to_owned (sequences of concrete length)
+
+@intrinsic(r'^(std::collections::)?VecDeque::<.*>::(new|with_capacity)$', 'VecDeque::new/with_capacity')
+def _vd_new(eng, st, args, ci):
+    return Seq([])
+
+
+@intrinsic(r'^(std::collections::)?VecDeque::<.*>::len$', 'VecDeque::len')
+def _vd_len(eng, st, args, ci):
+    v = eng.read_ref(st, args[0])
+    return bv_const(len(v.items), 'usize')
+
+
+@intrinsic(r'^(std::collections::)?VecDeque::<.*>::pop_front$', 'VecDeque::pop_front')
+def _vd_pop_front(eng, st, args, ci):
+    v = eng.read_ref(st, args[0])
+    if not v.items:
+        return NONE
+    eng.write_ref(st, args[0], Seq(v.items[1:]))
+    return some(v.items[0])
+
+
+@intrinsic(r'^(std::collections::)?VecDeque::<.*>::push_back$', 'VecDeque::push_back')
+def _vd_push_back(eng, st, args, ci):
+    v = eng.read_ref(st, args[0])
+    eng.write_ref(st, args[0], Seq(v.items + (args[1],)))
+    return UNIT
+
+
+@intrinsic(r'^(std::vec::)?Vec::<.*>::remove$', 'Vec::remove (concrete index)')
+def _vec_remove(eng, st, args, ci):
+    v = eng.read_ref(st, args[0])
+    i = args[1].concrete()
+    if i is None:
+        raise Unsupported('Vec::remove with symbolic index')
+    if i >= len(v.items):
+        return PanicNowCompat('removal index (is %d) should be < len (is %d)' % (i, len(v.items)))
+    eng.write_ref(st, args[0], Seq(v.items[:i] + v.items[i + 1:]))
+    return v.items[i]
+
+
+@intrinsic(r'^<str as (std::borrow::)?ToOwned>::to_owned$|^<(std::string::)?String as (std::clone::)?Clone>::clone$|^<str as (std::string::)?ToString>::to_string$', 'str::to_owned / String::clone (same text value)', prio=2)
+def _str_to_owned(eng, st, args, ci):
+    return _deref_arg(eng, st, args[0])
+
+
+# ---------------------------------------------------------------- generic lazy iterator adaptors (map / filter / filter_map) and consumers
+
+_ITER_TYS = r'(std::slice::Iter|core::slice::Iter|std::vec::IntoIter|Map|Filter|FilterMap|std::iter::Map|std::iter::Filter|std::iter::FilterMap|std::iter::Take|Take)'
+
+
+@intrinsic(r'^<' + _ITER_TYS + r'<.*> as (std::iter::)?Iterator>::(map|filter|filter_map)::<', 'Iterator::{map,filter,filter_map} (lazy adaptors; closure bodies = real MIR)', prio=1)
+def _iter_adaptor(eng, st, args, ci):
+    m = re.search(r'Iterator>::(map|filter|filter_map)::<', ci.func)
+    kind = {'map': 'Map', 'filter': 'Filter', 'filter_map': 'FilterMap'}[m.group(1)]
+    return Tup([args[0], args[1]], kind)
+
+
+def drain(eng, st, it):
+    """all elements an iterator value yields: list of (state, [items]); forks where closures decide"""
+    if isinstance(it, Ref):
+        return drain(eng, st, eng.read_ref(st, it))
+    if not isinstance(it, Tup):
+        raise Unsupported('drain of %r' % (it,))
+    if it.name == 'SliceIter':
+        ref, pos = it.items
+        seq = eng.read_ref(st, ref)
+        p = pos.concrete()
+        return [(st, [Ref(ref.key, ref.projs + (('cindex', j),), ref.mut) for j in range(p, len(seq.items))])]
+    if it.name == 'OwnedIter':
+        cell, pos = it.items
+        seq = eng.read_ref(st, cell)
+        p = pos.concrete()
+        return [(st, list(seq.items[p:]))]
+    if it.name in ('Map', 'Filter', 'FilterMap'):
+        inner, f = it.items
+        out = []
+        for (s, items) in drain(eng, st, inner):
+            live = [(s, [])]
+            for item in items:
+                nxt = []
+                for (s1, acc) in live:
+                    if it.name == 'Filter':
+                        arg = item if isinstance(item, Ref) else eng.ref_to(s1, item, False, 'flt')
+                        arg = eng.ref_to(s1, arg, False, 'fltref')   # predicate takes &Self::Item
+                    else:
+                        arg = item
+                    for (s2, kind, val) in eng.call_value(s1, f, [arg], None):
+                        if kind != 'ret':
+                            raise Unsupported('iterator closure did not return: %s %r' % (kind, val))
+                        if it.name == 'Map':
+                            nxt.append((s2, acc + [val]))
+                        elif it.name == 'Filter':
+                            t_ok = eng.feasible(s2, val)
+                            f_ok = eng.feasible(s2, z3.Not(val))
+                            if t_ok and f_ok:
+                                s3 = s2.fork()
+                                s3.assume(z3.Not(val))
+                                nxt.append((s3, list(acc)))
+                                s2.assume(val)
+                                nxt.append((s2, acc + [item]))
+                            elif t_ok:
+                                nxt.append((s2, acc + [item]))
+                            elif f_ok:
+                                nxt.append((s2, acc))
+                        else:
+                            some_c = val.discr == 1
+                            t_ok = eng.feasible(s2, some_c)
+                            f_ok = eng.feasible(s2, z3.Not(some_c))
+                            if t_ok and f_ok:
+                                s3 = s2.fork()
+                                s3.assume(z3.Not(some_c))
+                                nxt.append((s3, list(acc)))
+                                s2.assume(some_c)
+                                nxt.append((s2, acc + [val.payloads[1].items[0]]))
+                            elif t_ok:
+                                nxt.append((s2, acc + [val.payloads[1].items[0]]))
+                            elif f_ok:
+                                nxt.append((s2, acc))
+                live = nxt
+            out.extend(live)
+        return out
+    raise Unsupported('drain of iterator %s' % it.name)
+
+
+@intrinsic(r'^<' + _ITER_TYS + r'<.*> as (std::iter::)?Iterator>::collect::<(std::vec::)?Vec<', 'Iterator::collect::<Vec<_>>', prio=1)
+def _iter_collect(eng, st, args, ci):
+    return [(s, 'ret', Seq(items)) for (s, items) in drain(eng, st, args[0])]
+
+
+@intrinsic(r'^<' + _ITER_TYS + r'<.*> as (std::iter::)?Iterator>::count$', 'Iterator::count', prio=1)
+def _iter_count(eng, st, args, ci):
+    return [(s, 'ret', bv_const(len(items), 'usize')) for (s, items) in drain(eng, st, args[0])]
+
+
+@intrinsic(r'^<(std::vec::)?Vec<.*> as (std::iter::)?FromIterator<.*>>::from_iter::<', 'Vec::from_iter', prio=1)
+def _vec_from_iter(eng, st, args, ci):
+    return [(s, 'ret', Seq(items)) for (s, items) in drain(eng, st, args[0])]
